@@ -266,4 +266,37 @@ theorem sg_decode_encode (g m : Nat) (hord : m < orderOf (g : ZMod p)) (hm : m <
   rw [h0]
   exact sgDecodeLoop_spec g m hord 1024 0 (by omega) (by omega)
 
+/-- soundness of the search: whenever the loop stops before its bound, the power it reports IS the element searched for -/
+theorem sgDecodeLoop_sound (g M : Nat) : ∀ fuel m,
+    sgDecodeLoop p g M fuel m (powMod g m p) < m + fuel →
+      powMod g (sgDecodeLoop p g M fuel m (powMod g m p)) p = M := by
+  intro fuel
+  induction fuel with
+  | zero => intro m h; rw [sgDecodeLoop] at h; omega
+  | succ fuel ih =>
+    intro m h
+    rw [sgDecodeLoop] at h ⊢
+    by_cases hne : powMod g m p = M
+    · simp only [bne_iff_ne, ne_eq, hne, not_true_eq_false, if_false]
+    · simp only [bne_iff_ne, ne_eq, hne, not_false_eq_true, if_true] at h ⊢
+      have hstep : mulMod p g (powMod g m p) = powMod g (m + 1) p := by
+        rw [mulMod, powMod_eq, powMod_eq, pow_succ, Nat.mul_mod_mod, mul_comm]
+      rw [hstep] at h ⊢
+      exact ih (m + 1) (by omega)
+
+/-- ≙ `decode` never returns a wrong message: a result below the bound is the discrete logarithm of the argument -/
+theorem sg_decode_sound (g M r : Nat) (h : sgDecode? p g M = some r) : r < 1024 ∧ powMod g r p = M := by
+  unfold sgDecode? at h
+  simp only at h
+  split at h
+  · rename_i hr
+    simp only [Option.some.injEq] at h
+    subst h
+    refine ⟨hr, ?_⟩
+    unfold sgDecode at hr ⊢
+    have h0 : (1 : Nat) % p = powMod g 0 p := by rw [powMod_eq, pow_zero]
+    rw [h0] at hr ⊢
+    exact sgDecodeLoop_sound g M 1024 0 (by omega)
+  · cases h
+
 end MpycV.Groups
